@@ -98,6 +98,7 @@ def run(ctx):
     tp = ctx.tmp("c50_replay_traces.ndjson")
     res = ctx.go_test("c50", "TestReplay", cases=g.traces, timeout=1500,
                       env={"VERIF_TRACES": tp, "C50_ALL_OPS": "1" if ctx.thorough else "0"})
+    replay_res = res
     ctx.absorb(res, validated=False)
     if ctx.violations:
         return      # the real client already contradicted the model in the replay: verdict is settled
@@ -131,6 +132,16 @@ def run(ctx):
     # ---- (4) default back-off in virtual time
     res = ctx.go_test("c50", "TestDefaultBackoff", timeout=600)
     ctx.absorb(res, validated=False)
+    # ---- (5) back-off VALUE classes: zero and NEGATIVE end the retries (signed POST: in the replay above;
+    #          unsigned GET: TestGetBackoff); default back-off with every Retry-After class
+    rg = ctx.go_test("c50", "TestGetBackoff", timeout=600)
+    ctx.absorb(rg, validated=False)
+    ctx.absorb(ctx.go_test("c50", "TestDefaultRetryAfter", timeout=600), validated=False)
+    neg_post = (replay_res.get("extra") or {}).get("c50_negative_backoff_post_cases", 0)
+    neg_get = (rg.get("extra") or {}).get("c50_negative_backoff_get_cases", 0)
+    ctx.extra["negative_backoff_cases"] = {"post": neg_post, "get": neg_get}
+    if not ctx.violations and (not neg_post or not neg_get):
+        raise vlib.Infra("vacuous: no negative-backoff case ran (post=%s get=%s)" % (neg_post, neg_get))
     ctx.extra["recorded_traces_validated"] = nval
     ctx.exhaustive = False
     ctx.notes.append("model checking is exhaustive within the stated bounds; replay covers every single-operation behaviour within the "
